@@ -22,7 +22,7 @@ from nverif.oracle import taylorfam as tf
 
 EPS = 2.0 ** -52
 K_EST = 300.0         # multiple of the returned error_estimate
-KAPPA = 1.0e7         # multiple of the FFT floor eps * max|f| / R^k (final circle)
+KAPPA = 1.0e3         # multiple of the FFT floor eps * max|f| / R^k (final circle)
 SAFETY_MAXF = 1.5     # 256-point sampling of max|f| on the final circle, times this
 REL_DERIV = 4 * EPS   # derivative() == taylor() * k!  (relative)
 EST_ZERO = 100.0      # an estimate below EST_ZERO * eps*max|f|/R^k is "zero" (finding class only)
